@@ -157,8 +157,23 @@ impl TryFrom<&Value> for f64 {
                 Ok(f64::try_from(&Value::Text(s))?)
             }
             Value::Number(v) => Ok(*v),
-            Value::Text(v) => Ok(v.parse::<f64>().unwrap_or(f64::NAN)),
+            Value::Text(v) => Ok(string_to_number(v)),
         }
+    }
+}
+
+/// Optional white space, an optional minus sign, a `Number` (`Digits ('.' Digits?)? | '.' Digits`)
+/// and optional white space; any other string converts to NaN.
+fn string_to_number(value: &str) -> f64 {
+    let number = value.trim_matches(|c| matches!(c, ' ' | '\t' | '\r' | '\n'));
+    let unsigned = number.strip_prefix('-').unwrap_or(number);
+    let (integer, fraction) = unsigned.split_once('.').unwrap_or((unsigned, ""));
+
+    let is_digits = |v: &str| v.bytes().all(|b| b.is_ascii_digit());
+    if (integer.is_empty() && fraction.is_empty()) || !is_digits(integer) || !is_digits(fraction) {
+        f64::NAN
+    } else {
+        number.parse::<f64>().unwrap_or(f64::NAN)
     }
 }
 
